@@ -427,10 +427,12 @@ pub fn sim_advanced(
     args: &SimulatorArgs,
 ) -> Vec<SimEvent> {
     // the resulting simulated trace
+    // a rough estimate of the number of events in the trace, only used as a
+    // capacity hint: the length bound caps it, but a large bound must not turn
+    // into a large allocation
     let expected_trace_len = if args.max_trace_length > 0 {
-        args.max_trace_length
+        args.max_trace_length.min(sq.len() * 2)
     } else {
-        // a rough estimate of the number of events in the trace
         sq.len() * 2
     };
     let mut trace: Vec<SimEvent> = Vec::with_capacity(expected_trace_len);
